@@ -25,11 +25,11 @@ def run(tier, seed, scale):
                        "asan/ubsan variant: strided loops keep last+step representable (DESIGN 4.8); type-edge cases run in rel/dbg/tsan"]
     q = tier == "quick"
     phases = [
-        Phase("rel-hot", "c05", "rel", 270000 if q else 2000000, procs=6 if q else 12, min_nontrivial=20000),
-        Phase("rel-2cpu", "c05", "rel", 36000 if q else 300000, procs=2 if q else 4, cpus=2),
-        Phase("rel-1cpu", "c05", "rel", 18000 if q else 150000, procs=2 if q else 4, cpus=1),
-        Phase("dbg-hot", "c05", "dbg", 90000 if q else 800000, procs=3 if q else 8, min_nontrivial=5000),
-        Phase("tsan", "c05", "tsan", 6000 if q else 60000, procs=3 if q else 8, timeout=1500),
+        Phase("rel-hot", "c05", "rel", 400000 if q else 2000000, procs=6 if q else 12, min_nontrivial=20000),
+        Phase("rel-2cpu", "c05", "rel", 54000 if q else 300000, procs=2 if q else 4, cpus=2),
+        Phase("rel-1cpu", "c05", "rel", 27000 if q else 150000, procs=2 if q else 4, cpus=1),
+        Phase("dbg-hot", "c05", "dbg", 135000 if q else 800000, procs=3 if q else 8, min_nontrivial=5000),
+        Phase("tsan", "c05", "tsan", 9000 if q else 60000, procs=3 if q else 8, timeout=1500),
     ]
     if not q:
         phases.append(Phase("asan", "c05", "asan", 120000, procs=6, timeout=1800))
